@@ -13,7 +13,7 @@ RULE = ("doc: Roboto / DejaVu Sans / SourceSans3 (CFF) (thorough: + DejaVu Serif
 
 def classify(case, code):
     # bit 4 is set by the Gallina checker only when every failing font of the case draws a code point above 0xFFFF
-    if code in (6, 7) and case and any(c > 0xFFFF for l in case.get("lines", []) for c in l.get("text", [])):
+    if code == 6 and case and any(c > 0xFFFF for l in case.get("lines", []) for c in l.get("text", [])):
         return "C13-astral-text"
     return None
 
